@@ -2,7 +2,7 @@
 import math
 import gen
 from evalutil import *
-from props.C03 import edge_points
+from props.C03 import edge_points, pent_seam_points
 
 ID = "C02"
 LEVEL = "other"
@@ -19,7 +19,8 @@ EXPLANATION = ("argument validation is a theorem; _hex2dToCoordIJK (Float instan
                "points 1e-1..1e-12 cell widths from cell edges/corners, along all icosahedron edges, around "
                "pentagons, at the poles and the antimeridian")
 RULE = ("points near edges/corners of random cells at all resolutions (offset fractions 1e-1..1e-12), near the 30 "
-        "icosahedron edges (log-uniform offsets), pentagon vertices, poles, antimeridian, arbitrary finite doubles; "
+        "icosahedron edges (log-uniform offsets), the 60 face seams that meet at the pentagon centres (log-uniform "
+        "distance and offset), pentagon vertices, poles, antimeridian, arbitrary finite doubles; "
         "non-trivial = success answer")
 
 
@@ -107,6 +108,8 @@ def _points(ctx, rng, tier):
     for (la, ln) in ep:
         pts.append((la, ln, rng.randrange(16), "icosa-edge"))
         pts.append((la, ln, rng.choice([13, 14, 15]), "icosa-edge"))
+    for (la, ln) in pent_seam_points(ctx, rng, 120 if tier == "quick" else 1500):
+        pts.append((la, ln, rng.randrange(16), "pentagon-seam"))
     for _ in range(300):
         pts.append((rng.choice([1, -1]) * (math.pi / 2 - 10 ** rng.uniform(-12, -2)), rng.uniform(-math.pi, math.pi), rng.randrange(16), "pole"))
         pts.append((rng.uniform(-1.5, 1.5), rng.choice([1, -1]) * (math.pi - 10 ** rng.uniform(-14, -3)), rng.randrange(16), "antimeridian"))
